@@ -45,7 +45,8 @@ def main():
             from vf.mon.cover import Coverage
 
             cover = Coverage(prop)
-            cover.start()
+            if full is None:  # (the whole-package reach run uses its own tool id; two LINE tools on one code object lose events)
+                cover.start()
         if shard.get("replay") is not None:
             mod.replay(shard["replay"], ctx)
         else:
